@@ -62,6 +62,7 @@ func runMem(c Case, tr *Tracer) {
 	steps := caseInt(c, "steps")
 	tr.emit(Ev{"ev": "Start", "site": "mem"})
 	var live []*liveResult
+	var forget []int
 	nextID, nextIn := 1, 1
 	changedSince := func() ([]int, string) {
 		ch := []int{}
@@ -91,11 +92,17 @@ func runMem(c Case, tr *Tracer) {
 			e["same"] = true
 		}
 		tr.emit(e)
+		// results the caller has let go of leave the model too
+		for _, id := range forget {
+			tr.emit(Ev{"ev": "Forget", "r": id, "changed": []int{}, "same": true, "site": "-/Forget"})
+		}
+		forget = nil
 	}
 	add := func(lr *liveResult) {
 		lr.snap = lr.read()
 		live = append(live, lr)
 		if len(live) > 10 {
+			forget = append(forget, live[0].id)
 			live = live[1:]
 		}
 	}
